@@ -11,7 +11,9 @@ Next == /\ l <= Len(Trace)
            IF e.ev = "reset" THEN outstanding' = {}
            ELSE IF e.a \in {"Event", "KeepAlive"} THEN outstanding' = outstanding
            ELSE IF e.a = "Send" THEN outstanding' = outstanding \cup {e.c}
-           ELSE /\ Report("OwnResponse", e.c \in outstanding => e.ok)
+           ELSE /\ Report("OwnResponse", e.c \in outstanding => (e.ok \/ e.starved))
+                \* a response does not wait for another controller to read its own (C13: the accessory keeps serving)
+                /\ Report("Served", e.c \in outstanding => ~e.starved)
                 /\ outstanding' = outstanding \ {e.c}
         /\ l' = l + 1
 Accepted == TLCGet("stats").diameter = Len(Trace) + 1
